@@ -52,7 +52,7 @@ type kase struct {
 	used    map[int]bool
 	realID  map[int]uint64
 	tagCtr  map[int]int
-	fnTag   map[int]int // light listeners without bound args: code pointer -> tag
+	fnTag   map[int]int // light listeners with a code pointer of their own (8..15): code pointer -> tag
 	depth   int
 	aborted bool
 	mu      sync.Mutex
@@ -208,7 +208,11 @@ func lf13(a ...interface{}) { lightCall(13, a) }
 func lf14(a ...interface{}) { lightCall(14, a) }
 func lf15(a ...interface{}) { lightCall(15, a) }
 
-var lightFns = []light.CBFunc{lf0, lf1, lf2, lf3, lf4, lf5, lf6, lf7, lf8, lf9, lf10, lf11, lf12, lf13, lf14, lf15}
+var lightFns []light.CBFunc
+
+func init() {
+	lightFns = []light.CBFunc{lf0, lf1, lf2, lf3, lf4, lf5, lf6, lf7, lf8, lf9, lf10, lf11, lf12, lf13, lf14, lf15}
+}
 
 func (k *kase) centre(i int) *centre {
 	if i < 0 || i >= len(k.cs) {
@@ -248,10 +252,12 @@ func (k *kase) runOp(o sop) {
 		k.used[o.t] = true
 		var id uint64
 		if c.kind == 'T' {
+			// code pointers 8..15 identify their (single) template; the shared ones 0..7 carry a hidden tag argument
 			var args []interface{}
-			if len(tm.bound) > 0 {
+			if tm.fn%16 < 8 {
 				args = append([]interface{}{tagArg{o.t}}, toArgs(tm.bound)...)
 			} else {
+				args = toArgs(tm.bound)
 				k.fnTag[tm.fn%16] = o.t
 			}
 			if o.g {
@@ -759,18 +765,14 @@ func (g *gen) genCase() []string {
 		sw = [6]int{2, 2, 0, 2, 1, 5}
 		tw = [6]int{6, 1, 0, 6, 2, 2}
 	}
-	// templates: 1..nt, code pointers: 0..7 shared (NoCheck / bound args), 8..15 unique & unbound
+	// templates: 1..nt, code pointers: 0..7 shared between templates, 8..15 used by one template each
 	uniq := 8
 	for t := 1; t <= g.nt; t++ {
 		nb := r.Intn(3)
 		fn := r.Intn(8)
-		if nb == 0 {
-			if uniq < 16 {
-				fn = uniq
-				uniq++
-			} else {
-				nb = 1
-			}
+		if uniq < 16 && r.Intn(2) == 0 {
+			fn = uniq
+			uniq++
 		}
 		b := make([]int, nb)
 		for i := range b {
